@@ -28,6 +28,10 @@ def scenario(rng, i):
     tree = gen.gen_tree(rng, max_entries=10, max_depth=2, simple=(i % 2 == 0), distinct=distinct, ds_store=False)
     while len(gen.all_files(tree)) < 2:
         tree[gen.gen_name(rng, set(tree), simple=True)] = {"f": gen.gen_content(rng, distinct) or "aa"}
+    if i % 5 == 2:
+        # names in decomposed and in precomposed Unicode form: a packing list names each file exactly as the history does
+        tree["cafe\u0301.mov"] = {"f": gen.gen_content(rng, distinct) or "c1"}
+        tree["A\u030a"] = {"d": {"e\u0301.txt": {"f": gen.gen_content(rng, distinct) or "c2"}, "\u00e9.txt": {"f": gen.gen_content(rng, distinct) or "c3"}}}
     cur = copy.deepcopy(tree)
     steps = []
     altered = {}
